@@ -22,6 +22,7 @@
 -/
 import JdModel
 import JdSpec
+import JdProofs.Common
 
 namespace Jd
 open Jd.Spec
@@ -362,25 +363,6 @@ theorem ksort_perm {β} : ∀ l : List (UInt64 × β), (ksort l).Perm l
     simp only [ksort, List.foldr_cons] at ih ⊢
     exact (kinsert_perm _ _ _).trans (ih.cons _)
 
-
-/-- `bytes.Compare` on the little-endian arrays is a strict total order on hash codes:
-    the sort key is an involution, hence injective -/
-theorem bswap_bswap (h : UInt64) : bswap (bswap h) = h := by
-  simp only [bswap, ofLe8, le8, List.foldr, List.reverse_cons, List.reverse_nil, List.nil_append,
-    List.cons_append]
-  apply UInt64.eq_of_toBitVec_eq
-  simp only [UInt64.toBitVec_or, UInt64.toBitVec_shiftLeft, UInt8.toBitVec_toUInt64,
-    UInt64.toBitVec_toUInt8, UInt64.toBitVec_shiftRight]
-  ext i hi
-  simp [BitVec.getElem_setWidth, BitVec.getLsbD_setWidth, Nat.sub_sub]
-  rw [← BitVec.getLsbD_eq_getElem]
-  have hc : i < 8 ∨ (8 ≤ i ∧ i < 16) ∨ (16 ≤ i ∧ i < 24) ∨ (24 ≤ i ∧ i < 32) ∨ (32 ≤ i ∧ i < 40) ∨
-      (40 ≤ i ∧ i < 48) ∨ (48 ≤ i ∧ i < 56) ∨ (56 ≤ i ∧ i < 64) := by omega
-  rcases hc with hc | hc | hc | hc | hc | hc | hc | hc
-  all_goals grind
-
-theorem bswap_inj {a b : UInt64} (h : bswap a = bswap b) : a = b := by
-  rw [← bswap_bswap a, ← bswap_bswap b, h]
 
 theorem hashLt_irrefl (a : UInt64) : hashLt a a = false := by
   simp [hashLt]
@@ -820,10 +802,6 @@ example : ∃ ys, patchSetLeaf [.set] [.bool true, .null] [.null] [.bool false] 
 
 /-! ### 6. the multiset leaf -/
 
-theorem hashList_eq_map (m : Opts) : ∀ l : List Json, hashList m l = l.map (hashCode m)
-  | [] => by simp [hashList]
-  | x :: r => by simp [hashList, hashList_eq_map m r]
-
 /-- without SetKeys the identity of every node is its hash code (in particular for `[.mset]`) -/
 theorem identOf_eq_hashCode {m : Opts} (hk : keysOf m = none) (x : Json) :
     identOf m x = hashCode m x := by
@@ -832,37 +810,16 @@ theorem identOf_eq_hashCode {m : Opts} (hk : keysOf m = none) (x : Json) :
 theorem countOcc_eq_count (h : UInt64) (hs : List UInt64) : countOcc h hs = hs.count h := by
   simp [countOcc, List.count_eq_countP, List.countP_eq_length_filter]
 
-theorem mem_hdedup (h : UInt64) : ∀ l : List UInt64, h ∈ hdedup l ↔ h ∈ l
-  | [] => by simp [hdedup]
-  | x :: r => by
-    simp only [hdedup, List.mem_cons, List.mem_filter, mem_hdedup h r]
-    by_cases e : h = x <;> simp [e]
-
 theorem nodup_hdedup : ∀ l : List UInt64, (hdedup l).Nodup
   | [] => by simp [hdedup]
   | x :: r => by
     simp only [hdedup, List.nodup_cons, List.mem_filter]
     exact ⟨by simp, (nodup_hdedup r).filter _⟩
 
-theorem hinsert_perm (h : UInt64) : ∀ l : List UInt64, (hinsert h l).Perm (h :: l)
-  | [] => by simp [hinsert]
-  | x :: r => by
-    simp only [hinsert]
-    split
-    · exact List.Perm.refl _
-    · exact ((hinsert_perm h r).cons _).trans (List.Perm.swap _ _ _)
-
-theorem hsort_perm : ∀ l : List UInt64, (hsort l).Perm l
-  | [] => by simp [hsort]
-  | x :: r => by
-    have ih := hsort_perm r
-    simp only [hsort, List.foldr_cons] at ih ⊢
-    exact (hinsert_perm _ _).trans (ih.cons _)
-
 /-- weakly increasing in the order of `hashCodes.Less` -/
 def HSortedLe (l : List UInt64) : Prop := l.Pairwise (fun a b => hashLt b a = false)
 
-theorem hinsert_sorted (h : UInt64) : ∀ l : List UInt64, HSortedLe l → HSortedLe (hinsert h l)
+theorem hinsert_sorted_sp (h : UInt64) : ∀ l : List UInt64, HSortedLe l → HSortedLe (hinsert h l)
   | [], _ => by simp [hinsert, HSortedLe]
   | x :: r, hs => by
     simp only [HSortedLe, List.pairwise_cons] at hs
@@ -879,7 +836,7 @@ theorem hinsert_sorted (h : UInt64) : ∀ l : List UInt64, HSortedLe l → HSort
           have := hashLt_trans hc hlt
           rw [hs.1 a ha] at this; cases this
     · rename_i hlt
-      have ih := hinsert_sorted h r hs.2
+      have ih := hinsert_sorted_sp h r hs.2
       simp only [HSortedLe, List.pairwise_cons]
       refine ⟨?_, ih⟩
       intro a ha
@@ -889,12 +846,12 @@ theorem hinsert_sorted (h : UInt64) : ∀ l : List UInt64, HSortedLe l → HSort
       · subst e; simpa using hlt
       · exact hs.1 a ha'
 
-theorem hsort_sorted : ∀ l : List UInt64, HSortedLe (hsort l)
+theorem hsort_sorted_sp : ∀ l : List UInt64, HSortedLe (hsort l)
   | [] => by simp [hsort, HSortedLe]
   | x :: r => by
-    have ih := hsort_sorted r
+    have ih := hsort_sorted_sp r
     simp only [hsort, List.foldr_cons] at ih ⊢
-    exact hinsert_sorted _ _ ih
+    exact hinsert_sorted_sp _ _ ih
 
 /-- a weakly sorted list of hash codes is determined by the multiplicities of its members -/
 theorem HSortedLe.ext {l1 l2 : List UInt64} (h1 : HSortedLe l1) (h2 : HSortedLe l2)
@@ -1123,7 +1080,7 @@ theorem patchMsetLeaf_counts (m : Opts) (a remove add : List Json) :
       exact (mem_hdedup _ _).1 hd
     obtain ⟨g1, g2⟩ := filterMap_hashLookup _ hL
     refine ⟨_, by simp only [patchMsetLeaf]; rw [if_neg (by simp [hno])], g2, ?_, ?_⟩
-    · rw [g1]; exact hsort_sorted _
+    · rw [g1]; exact hsort_sorted_sp _
     · intro h
       rw [g1, (hsort_perm _).count_eq, count_flatMap_replicate _ _ _ (nodup_hdedup _)]
       simp only [countOcc_eq_count, hashList_eq_map, mem_hdedup, List.mem_append]
